@@ -16,3 +16,59 @@ Theorem C05_value_lane_is_point_evaluation :
         (m_out (eval_tape (grad_sem F div_euclid) tape gins e0b (repeat (gfrom F (fl_nan _ F)) n))).
 Proof. exact (@grad_value_lane). Qed.
 Print Assumptions C05_value_lane_is_point_evaluation.
+
+(* ---- derivatives, over the reals (the model's formulas with exact arithmetic) ---------- *)
+From Coq Require Import Reals.
+From Coquelicot Require Import Coquelicot.
+From FV Require Import RFL GradSound.
+
+(* Chain rule through ANY composition, arbitrary seeds: for every tape, every input point
+   and seed direction, if every intermediate operation is differentiable at the point
+   (tape_ok: no tie of min/max, no zero of abs, no integer point of floor/ceil/round, no
+   branch cut ...), each output's value lane is the point evaluator's value and lane l is
+   the derivative of the point evaluator along the seed direction of that lane. *)
+Theorem C05_grad_tape_sound :
+  forall (l : lane) (gin : list (grad R)) (tape : list (op R)) (nout : nat),
+    tape_ok tape nout (map gv gin) ->
+    forall k,
+      let g := nth k (eval_outputs gs tape nout gin) (gfrom r_fl 0) in
+      gv g = nth k (eval_outputs r_sem tape nout (map gv gin)) 0 /\
+      is_derive (fun s => nth k (eval_outputs r_sem tape nout (pt_inputs l gin s)) 0) 0 (gl l g).
+Proof. exact grad_tape_sound. Qed.
+Print Assumptions C05_grad_tape_sound.
+
+(* unit seeds on x, y, z: the three lanes are the three partial derivatives *)
+Theorem C05_grad_tape_partials :
+  forall (tape : list (op R)) (nout : nat) (x y z : R),
+    tape_ok tape nout [x; y; z] ->
+    forall k,
+      let F := fun x y z => nth k (eval_outputs r_sem tape nout [x; y; z]) 0 in
+      let g := nth k (eval_outputs gs tape nout (seed_xyz x y z)) (gfrom r_fl 0) in
+      gv g = F x y z /\
+      is_derive (fun x' => F x' y z) x (gx g) /\
+      is_derive (fun y' => F x y' z) y (gy g) /\
+      is_derive (fun z' => F x y z') z (gz g).
+Proof. exact grad_tape_partials. Qed.
+Print Assumptions C05_grad_tape_partials.
+
+(* per opcode, with its differentiability side condition *)
+Theorem C05_grad_un_sound :
+  forall u (a : R -> R) t da l,
+    ok_un u (a t) -> is_derive a t da ->
+    forall g, gv g = a t -> gl l g = da ->
+    gv (gun u g) = r_un u (a t) /\ is_derive (fun s => r_un u (a s)) t (gl l (gun u g)).
+Proof. exact grad_un_sound. Qed.
+Theorem C05_grad_bin_sound :
+  forall b (a c : R -> R) t da dc l,
+    ok_bin b (a t) (c t) -> is_derive a t da -> is_derive c t dc ->
+    forall g h, gv g = a t -> gl l g = da -> gv h = c t -> gl l h = dc ->
+    gv (gbin b g h) = r_bin b (a t) (c t) /\ is_derive (fun s => r_bin b (a s) (c s)) t (gl l (gbin b g h)).
+Proof. exact grad_bin_sound. Qed.
+Print Assumptions C05_grad_bin_sound.
+
+(* the side conditions are necessary: at a kink the lane is a one-sided derivative *)
+Theorem C05_kinks_excluded_for_a_reason :
+  (gx (gun UAbs (mk1 0 1)) = 1 /\ ~ is_derive (fun s => r_un UAbs s) 0 1) /\
+  (gx (gbin BMin (mk1 0 1) (mk1 0 (-1))) = -1 /\ ~ is_derive (fun s => r_bin BMin s (- s)) 0 (-1)).
+Proof. split; [exact abs_at_zero | exact min_at_tie]. Qed.
+Print Assumptions C05_kinks_excluded_for_a_reason.
